@@ -5,7 +5,7 @@ import random, itertools, collections
 PID = 'C11'
 HEADER = []
 T0 = 2000000000
-RULE = ('activation-order family: chains of depth 5-12 with side branches (and random trees), Zone::OnAllConfigLoaded re-run for all zones top-down / bottom-up / in random order, ancestor chains read back and relay steps routed over them; random zone trees (depth 1-4, 1-2 endpoints per zone, shuffled endpoint names, 0-2 global zones) x local identity x '
+RULE = ('net-chain / net-tree / net-tree-global families (op rt_net): COMPLETE multi-hop runs of one event on the real code - pure chains of depth 2-14 (every target zone, originators above/inside/below the target) and zone trees (depth <= 5, <= 4 children per zone, forests, 1-2 global zones) with a non-global target anywhere (originators on the line, below it, in side branches) or a global-zone target, 1-2 endpoints per zone, random names; link sets: all directly related pairs / a few missing / a random half, plus links between unrelated endpoints; delivery schedule fifo / lifo / seeded random; at every node the real JsonRpcConnection::MessageHandler and either the verif::Relay handler (CanAccessObject test + SyncRelayMessage) or, for host targets, the REAL event::SetNextCheck handler chain through the asynchronous relay queue; checked by the extracted network oracle (nobody twice, fewer deliveries than endpoints, complete under the premise). activation-order family: chains of depth 5-12 with side branches (and random trees), Zone::OnAllConfigLoaded re-run for all zones top-down / bottom-up / in random order, ancestor chains read back and relay steps routed over them; random zone trees (depth 1-4, 1-2 endpoints per zone, shuffled endpoint names, 0-2 global zones) x local identity x '
         'connectivity row (none/all/related/random, optional second older connection) x origin (local, received from a connected '
         'peer through the real JsonRpcConnection::MessageHandler with every claimed originZone, hand-made MessageOrigin, anonymous client) '
         'x target (Host in any zone, the Zone object itself, CheckCommand in a global zone, no security object) x log flag; plus a '
@@ -16,8 +16,10 @@ TRUSTED = ['model: coq/Route/RtModel.v, RtLoad.v (transcription of ApiListener::
            'JsonRpcConnection::MessageHandler origin construction, Zone::CanAccessObject/IsChildOf)',
            'harness fixture harness/ops_rt.cpp: ApiListener constructed without PKI/sockets, m_Instance/identity/m_LocalEndpoint set per step, '
            'JsonRpcConnection objects over unconnected streams inserted into Endpoint::m_Clients, posted sends run by polling a harness-owned io_context',
-           'the network semantics (in-flight multiset, arbitrary delivery order, re-relay by the receiving endpoint) of the sweep theorems is model-only; '
-           'each of its steps (origin construction + relay) is what the per-step correspondence ties to the code',
+           'the network theorems quantify over a model-level network (in-flight multiset, arbitrary delivery order, re-relay by the receiving endpoint); '
+           'its steps (origin construction + relay) are tied to the code by the per-step correspondence, and whole runs by op rt_net: ONE process plays all '
+           'nodes in turn (identity, local endpoint and connection set switched per delivery; sound because SyncRelayMessage keeps no per-event state), '
+           'the harness holds the in-flight messages (the JSON the real code queued) and picks the schedule',
            'hook H1 (virtual clock) in lib/base/utility.cpp']
 ASSUMPTIONS = ['endpoint names sort like their numbers (harness names them e%03d)',
                'connectivity is symmetric in the network theorems (a TCP connection has two ends)',
@@ -29,7 +31,7 @@ ASSUMPTIONS = ['endpoint names sort like their numbers (harness names them e%03d
 def canon(lines):
     # which endpoint of a foreign zone the pointer-ordered std::set yields first is an input taken from the run:
     # the detail line is checked by the oracle for admissibility, not compared with the model's own choice
-    return [l for l in lines if not l.startswith('rtd ')]
+    return [l for l in lines if not l.startswith('rtd ') and not l.startswith('rtnd ')]
 
 
 class Topo:
@@ -198,6 +200,109 @@ def deep_topo(rnd):
     return Topo([tuple(z) for z in zones])
 
 
+def related_pairs(t):
+    """directly related endpoint pairs: same zone, or parent/child zones"""
+    ps = []
+    for i, (p, g, eps) in enumerate(t.zones):
+        if len(eps) == 2:
+            ps.append((eps[0], eps[1]))
+        if p is not None:
+            ps += [(a, b) for a in eps for b in t.zones[p][2]]
+    return ps
+
+
+def net_links(rnd, t):
+    """link sets for a network run: all related pairs (the premise holds), related pairs with some missing,
+    a random half, optionally a few links between unrelated endpoints (irrelevant for routing)"""
+    rel = related_pairs(t)
+    r = rnd.random()
+    if r < 0.4:
+        links = list(rel); kind = 'full'
+    elif r < 0.75:
+        links = [l for l in rel if rnd.random() < 0.85]; kind = 'few-missing'
+    else:
+        links = [l for l in rel if rnd.random() < 0.5]; kind = 'half'
+    if rnd.random() < 0.3 and len(t.eps) > 3:
+        for _ in range(rnd.randint(1, 3)):
+            a, b = rnd.sample(t.eps, 2)
+            links.append((a, b))
+    rnd.shuffle(links)
+    links = [(b, a) if rnd.random() < 0.5 else (a, b) for a, b in links]
+    return links, kind
+
+
+def net_line(rnd, s, tz, links, mode):
+    return 'rt_net s=%d tz=%d links=%s sched=%s seed=%d mode=%s' % (
+        s, tz, '.'.join('%d-%d' % l for l in links) or '-', rnd.choice(('fifo', 'lifo', 'rnd', 'rnd')), rnd.randrange(1, 10**6), mode)
+
+
+def net_chain_case(rnd):
+    """a pure chain of depth 2-14 (the class of C11_finite_once_unbounded / C11_complete_unbounded): complete multi-hop
+    runs on the real code, every target zone, originators above, inside and below the target"""
+    d = rnd.choice((2, 3, 4, 5, 6, 8, 10, 12, 14))
+    ids = rnd.sample(range(1, 120), 2 * d)
+    zones = []
+    for i in range(d):
+        n = rnd.choice((1, 2, 2))
+        zones.append((None if i == 0 else i - 1, False, ids[2 * i:2 * i + n]))
+    t = Topo(zones)
+    lines = ['now %d' % (T0 + rnd.randrange(0, 100000)), t.line()]
+    kinds = []
+    for _ in range(rnd.randint(2, 4)):
+        links, kind = net_links(rnd, t)
+        kinds.append(kind)
+        tz = rnd.randrange(d) if rnd.random() < 0.6 else d - 1
+        lines.append(net_line(rnd, rnd.choice(t.eps), tz, links, rnd.choice(('relay', 'nextcheck', 'nextcheck'))))
+    return {'lines': lines, 'tags': {'family': 'net-chain', 'links': kinds[0]}}
+
+
+def net_tree_case(rnd):
+    """a zone tree (depth <= 5, up to 4 children per zone, parents numbered first) plus 1-2 isolated global zones; the event is
+    about an object of a global zone (the class of C11_global_*_unbounded)"""
+    nz = rnd.randint(2, 12)
+    zones = [[None, False, None]]
+    depth = [1]
+    nch = [0]
+    for i in range(1, nz):
+        cands = [j for j in range(i) if depth[j] < 5 and nch[j] < 4]
+        p = rnd.choice(cands)
+        if rnd.random() < 0.08:
+            zones.append([None, False, None]); depth.append(1); nch.append(0)     # a second root
+            continue
+        nch[p] += 1
+        zones.append([p, False, None]); depth.append(depth[p] + 1); nch.append(0)
+    ids = rnd.sample(range(1, 120), 2 * nz)
+    for i, z in enumerate(zones):
+        n = rnd.choice((1, 2, 2))
+        z[2] = ids[2 * i:2 * i + n]
+    ng = rnd.choice((1, 1, 2))
+    for _ in range(ng):
+        zones.append([None, True, []])
+    t = Topo([tuple(z) for z in zones])
+    lines = ['now %d' % (T0 + rnd.randrange(0, 100000)), t.line()]
+    kinds = []
+    fam = 'net-tree-global'
+    nonglobal = rnd.random() < 0.5
+    if nonglobal:
+        fam = 'net-tree'
+    for _ in range(rnd.randint(2, 4)):
+        links, kind = net_links(rnd, t)
+        kinds.append(kind)
+        if nonglobal:
+            # a non-global target anywhere in the tree (deep leaves preferred); originators on the target's line, below it
+            # and in side branches; 2/3 of the runs through the real SetNextCheck handler chain
+            tz = max(rnd.randrange(nz), rnd.randrange(nz))
+            line = [tz]
+            while t.zones[line[-1]][0] is not None:
+                line.append(t.zones[line[-1]][0])
+            s = rnd.choice(t.zones[rnd.choice(line)][2]) if rnd.random() < 0.7 else rnd.choice(t.eps)
+            lines.append(net_line(rnd, s, tz, links, rnd.choice(('relay', 'nextcheck', 'nextcheck'))))
+        else:
+            s = rnd.choice(t.zones[0][2]) if rnd.random() < 0.5 else rnd.choice(t.eps)
+            lines.append(net_line(rnd, s, nz + rnd.randrange(ng), links, 'relay'))
+    return {'lines': lines, 'tags': {'family': fam, 'links': kinds[0]}}
+
+
 def generate(seed, tier):
     rnd = random.Random(seed)
     cases = []
@@ -217,6 +322,9 @@ def generate(seed, tier):
         for _ in range(rnd.randint(4, 12)):
             lines.append(step_line_safe(rnd, t))
         cases.append({'lines': lines, 'tags': {'family': 'random-tree'}})
+    nnet = {'quick': 300, 'thorough': 3000, 'search': 800}.get(tier, 300)
+    for i in range(nnet):
+        cases.append(net_chain_case(rnd) if rnd.random() < 0.4 else net_tree_case(rnd))
     perm = rnd.sample(range(1, 40), 6)
     fam = chain_family(perm)
     if tier == 'quick':
@@ -240,15 +348,21 @@ def _count(cases, op):
     return sum(1 for cs in cases for l in cs['lines'] if l.startswith(op))
 
 
+def _nets(impl_lines):
+    return [l for l in impl_lines if l.startswith('rtnd ')]
+
+
 def nontrivial(case, impl_lines):
-    return any(('sent=-' not in l) or ('persist=1' in l) for l in _steps(impl_lines))
+    return any(('sent=-' not in l) or ('persist=1' in l) for l in _steps(impl_lines)) or \
+        any('deliv=0 ' not in l for l in _nets(impl_lines))
 
 
 def classify(case, detail, impl_lines):
     d = detail or ''
     if 'crash' in d or 'missing-observation' in d or 'malformed' in d:
         return 'crash'
-    for k in ('ancestor-chain', 'send-to-ineligible', 'foreign-zone-entered-twice', 'persist-decision', 'withheld', 'log-position',
+    for k in ('net-processed-twice', 'net-too-many-deliveries', 'net-incomplete', 'net-not-quiescent', 'net-run-aborted',
+              'ancestor-chain', 'send-to-ineligible', 'foreign-zone-entered-twice', 'persist-decision', 'withheld', 'log-position',
               'origin-zone-construction', 'originZone-stamp', 'duplicate-message', 'stale-connection', 'generator-precondition'):
         if k in d:
             return k
@@ -257,6 +371,38 @@ def classify(case, detail, impl_lines):
 
 def keep_line(l):
     return l.startswith('rt_topo') or l.startswith('now ')
+
+
+def _net_premise(zones, line):
+    """statistics only: does the statement's connectivity premise hold for this rt_net line, and is the originator entitled?"""
+    toks = dict(t.split('=', 1) for t in line.split()[1:])
+    s0, tz = int(toks['s']), int(toks['tz'])
+    links = set()
+    if toks.get('links', '-') != '-':
+        for p in toks['links'].split('.'):
+            a, b = p.split('-'); links.add((int(a), int(b))); links.add((int(b), int(a)))
+    zone_of = {e: i for i, (p, g, eps) in enumerate(zones) for e in eps}
+    def anc(z):
+        r = []
+        while zones[z][0] is not None:
+            z = zones[z][0]; r.append(z)
+        return r
+    sz = zone_of[s0]
+    if zones[tz][1]:
+        ent = [z for z in range(len(zones)) if not zones[z][1] and (z == sz or sz in anc(z))]
+    else:
+        ent = [tz] + anc(tz)
+    if sz not in ent:
+        return 'originator-not-entitled'
+    for z in ent:
+        eps = zones[z][2]
+        if len(eps) == 2 and (eps[0], eps[1]) not in links:
+            return 'premise-fails'
+        for z2 in ent:
+            if zones[z][0] == z2 or zones[z2][0] == z:
+                if eps and not any((min(eps), e) in links for e in zones[z2][2]):
+                    return 'premise-fails'
+    return 'premise-holds'
 
 
 def extra_stats(cases, impl):
@@ -274,5 +420,25 @@ def extra_stats(cases, impl):
             if 'skip=-' not in l: c['steps_with_skipped_endpoints'] += 1
             if '*1' in l.split('sent=')[1].split()[0]: c['steps_entering_foreign_zone'] += 1
             if ' fz=z' in l: c['steps_with_origin_zone'] += 1
+        for l in _nets(impl.get(cs['id'], [])):
+            c['net_runs'] += 1
+            toks = dict(t.split('=', 1) for t in l.split()[1:])
+            c['net_deliveries'] += int(toks.get('deliv', '0'))
+            c['net_endpoints_processed'] += len([x for x in toks.get('proc', '-').split('.') if x != '-'])
+            c['net_runs_' + cs['tags'].get('family', '?')] += 1
+        zs = None
+        for l in cs['lines']:
+            if l.startswith('rt_topo'):
+                zs = []
+                for tok in l.split()[1:]:
+                    pp, gg, ee = tok.split('=', 1)[1].split(',')
+                    zs.append((None if pp == '-' else int(pp), gg == 'g', [] if ee == '-' else [int(x) for x in ee.split('.')]))
+            if l.startswith('rt_net'):
+                if 'mode=nextcheck' in l:
+                    c['net_runs_through_real_SetNextCheck_handler'] += 1
+                try:
+                    c['net_runs_' + _net_premise(zs, l)] += 1
+                except Exception:
+                    c['net_runs_premise_unknown'] += 1
     c['reloads'] = _count(cases, 'rt_reload')
     return dict(c)
